@@ -1,100 +1,19 @@
 /*@unit {
  'kind': 'bounded', 'mode': 'legacy',
- 'bound': 'format strings of at most FMTLEN characters (quick: 6, thorough: 9), every byte symbolic; at most 6 variadic arguments',
+ 'bound': 'the format is ONE token: an ordinary character, %%, or one directive of at most DLEN characters from % to the conversion letter (7 here; unit parser_long: 10), every character symbolic; sequences of tokens are covered by unit parser_seq on concrete formats',
  'functions': ['__printf'],
  'replace': ['print_i', 'print_s', 'print_f'],
- 'clauses': 'directive parser of __printf against the reference parser of the ISO grammar %[flags][width|*][.prec|.*][hh|h|l|ll|j|z|t]conv mixed with literal text and %%: same number of output events; the k-th event (arbitrary k) is the same literal character, or the same conversion with the same flags, width, precision, base, signedness, upper case and the argument converted as the length modifier prescribes, taken from the right variadic slot; return value == literal characters + what the conversions returned; the call-site preconditions of print_i / print_s hold; every loop of __printf (and of the real shim atoi it calls) ends within the format: unwinding assertions => formatting terminates, and every format byte read lies inside the string (exact-size object)',
- 'params': {'FMTLEN': [6]},
- 'params_thorough': {'FMTLEN': [9]},
+ 'clauses': 'directive parser of __printf against the reference parser of the ISO grammar %[flags][width|*][.prec|.*][hh|h|l|ll|j|z|t]conv: for every valid token the code produces exactly one output event -- the literal character, or ONE call of print_i / print_s with the flags, width, precision, base, signedness and upper case the reference parser prescribes and the argument taken from the right variadic slot and converted as the length modifier says (requires clauses of the replaced callees, asserted at the call sites in __printf), with the callback and its data passed on; it stops exactly at the end of the token (the directive loop ends after one iteration: unwinding assertion) and every loop in between terminates within the token (unwinding assertions of the flag / digit / atoi loops) without reading a byte outside the exact-size format object; return value == literal characters + what the conversion returned',
+ 'params': {'DLEN': [7]},
  'include': ['igris/util'],
- 'defines': ['C06_NO_STR_CONTENT'],
- 'unwind': 12,
- 'timeout': 900,
+ 'unwindset': ['__printf.0:9', '__printf.1:9', '__printf.2:9', '__printf.3:10', '__printf.4:3', '__printf.5:2', 'vc_atol.0:9', 'vc_atol.1:9'],
  'kf': ['C06_width_digits_loop', 'C06_neg_star_width'],
- 'assumptions': ['the format is valid per the reference grammar (anything else is undefined behaviour in ISO C; what __printf does with it is not part of C06)',
+ 'assumptions': ['the token is valid per the reference grammar (anything else is undefined behaviour in ISO C)',
                  'a `*` width argument is not INT_MIN',
-                 'variadic arguments are modelled as 64-bit slots of which a directive reads the low bytes of its type (x86_64 ABI; cbmc reads the prefix of the slot object)',
-                 'each replaced conversion returns at most INT_MAX/32 so that the int total cannot overflow (ISO: a total above INT_MAX cannot be reported)'],
+                 'variadic arguments are modelled as three 64-bit slots of which a directive reads the low bytes of its type (x86_64 ABI; cbmc reads the prefix of the slot object)'],
  'trusted': ['atoi: the real shim code compat/libc/stdlib/atol.c runs on the symbolic format (also proved separately by units/C11/atoi.c)',
-             'spec/c06_ref_parser.h as transcription of the ISO grammar (cross-checked natively against the host printf: units/C06/native/refparse_vs_host.c)'],
- 'witness': {'unwind': 12},
+             'spec/c06_ref_parser.h as transcription of the ISO grammar (cross-checked natively against the host printf on 300000 random formats: units/C06/native/refparse_vs_host.c)'],
+ 'checks_extra': ['--pointer-overflow-check'],
+ 'timeout': 600,
 } @*/
-#include "vc.h"
-#include "c06_env.h"
-#include "c06_iso_printf.h"
-#include "c06_print_contracts.h"
-#include "c06_ref_parser.h"
-#define atol vc_atol
-#define atoi vc_atoi
-#include "compat/libc/stdlib/atol.c"
-#include "igris/util/printf_impl.c"
-
-#define NSLOTS 6
-static int g_cbdata;
-static int call(const char *fmt, ...)
-{
-    va_list ap;
-    va_start(ap, fmt);
-    int r = __printf(c06_event_recorder, &g_cbdata, fmt, ap);
-    va_end(ap);
-    return r;
-}
-
-void harness(void)
-{
-    WIT_ARR(char, content, 10);
-    WIT(ullong, a0);
-    WIT(ullong, a1);
-    WIT(ullong, a2);
-    WIT(ullong, a3);
-    WIT(ullong, a4);
-    WIT(ullong, a5);
-    WIT(llong, ksel);
-    WIT(size_t, len);
-    __CPROVER_assume(len <= FMTLEN);
-    char *fmt = NEW_OBJ(len + 1); /* exact size: a read beyond the terminator fails */
-#ifdef WITNESS_MODE
-    for (size_t i = 0; i < len; i++) fmt[i] = content[i];
-#endif
-    fmt[len] = 0;
-    ullong slots[NSLOTS] = {a0, a1, a2, a3, a4, a5};
-    __CPROVER_assume(ksel >= 0);
-    struct ref_result R = ref_parse(fmt, (int)len, slots, NSLOTS, ksel);
-    __CPROVER_assume(R.valid && !R.star_int_min);
-    __CPROVER_assume(KF_C06_width_digits_loop == 0 ? 1 : KF_C06_width_digits_loop == 1 ? !R.literal_digits : R.literal_digits);
-    __CPROVER_assume(KF_C06_neg_star_width == 0 ? 1 : KF_C06_neg_star_width == 1 ? !R.negative_star_width : R.negative_star_width);
-
-    c06_events_reset(ksel);
-    int r = call(fmt, a0, a1, a2, a3, a4, a5);
-
-    __CPROVER_assert(g_ev == R.nev, "same number of output events (literal characters and conversions) as the reference parser");
-    __CPROVER_assert(g_nlit == R.nlit, "same number of literal characters (ordinary characters and %%)");
-    __CPROVER_assert(r == g_nlit + g_sum, "return value == literal characters + what the conversions returned");
-    if (ksel < R.nev) {
-        const struct ref_event *E = &R.ev;
-        unsigned ops_want = (E->flags & ISO_F_MINUS ? C06_OPS_LEFT : 0) | (E->flags & ISO_F_PLUS ? C06_OPS_SIGN : 0) |
-                            (E->flags & ISO_F_SPACE ? C06_OPS_SPACE : 0) | (E->flags & ISO_F_HASH ? C06_OPS_SPEC : 0) |
-                            (E->flags & ISO_F_ZERO ? C06_OPS_ZERO : 0) | (E->has_prec ? C06_OPS_PREC : 0) | (E->upper ? C06_OPS_UPPER : 0);
-        __CPROVER_assert(g_e_kind == E->kind, "k-th event: same kind (literal / integer conversion / string conversion)");
-        if (E->kind == REF_EV_CHAR)
-            __CPROVER_assert((uchar)g_e_c == (uchar)E->c, "k-th event: the same literal character");
-        else {
-            __CPROVER_assert(g_e_width == E->width, "k-th event: field width as written (digits or * argument)");
-            __CPROVER_assert(g_e_h == c06_event_recorder && g_e_d == (void *)&g_cbdata, "k-th event: callback and data passed on");
-            if (E->conv == 'p') {
-                __CPROVER_assert(g_e_u == E->u && g_e_base == 16 && g_e_signed == 0 && g_e_prec == (int)(2 * sizeof(void *) + 2) &&
-                                 (g_e_ops & (C06_OPS_FMT_MASK & ~(C06_OPS_PREC))) == ((ops_want | C06_OPS_SPEC | C06_OPS_ZERO) & ~C06_OPS_PREC),
-                                 "k-th event: %p takes the pointer from its slot, fixed 0x form");
-            } else {
-                __CPROVER_assert((g_e_ops & C06_OPS_FMT_MASK) == ops_want, "k-th event: flags, precision-given and upper-case bits as written");
-                __CPROVER_assert(g_e_prec == E->prec, "k-th event: precision as written (digits, * argument, 0 when none)");
-                if (E->kind == REF_EV_INT)
-                    __CPROVER_assert(g_e_u == E->u && g_e_base == E->base && g_e_signed == E->is_signed,
-                                     "k-th event: integer argument taken from the right slot and converted per length modifier; base and signedness of the conversion letter");
-                else if (E->conv == 's')
-                    __CPROVER_assert(E->u == 0 || g_e_str == (const char *)E->u, "k-th event: %s takes the pointer from its slot");
-            }
-        }
-    }
-    CANARY("parser harness end reachable");
-}
+#include "c06_parser_harness.h"
